@@ -9,3 +9,13 @@ CHECKS["C05"] = (
     "Request direction: msmart's encrypted request decoded by an independent V3 implementation (counter, pad, size, type, SHA-256 tag, payload) for every payload length 0..300 and every counter 0..4095; response direction: independently encoded responses decoded by msmart; every single-bit flip of one response per padding residue must be rejected with ProtocolError at the level where the library consumes it; plus LAN.send over an authenticated simulated connection. Search, not proof.",
     "Trusted base shared with the code under test: AES block primitive, SHA-256. Reference anchored to a captured V3 packet (self-test reproduces it byte for byte).",
     "DESIGN.md 3/C05")
+CHECKS["C03"] = (
+    "fault_enumeration", "exhaustive single-fault enumeration (bit flips, truncations, byte substitutions, length rewrites) + Hypothesis multi-byte corruption",
+    "Every single-bit flip and every truncation of ten authentic packets (frame lengths across block boundaries) exhaustively, byte substitutions (all 255 values per position for three packets in thorough), all 65 536 length-field values for one packet (thorough), random multi-byte corruptions, and each fault class through LAN.send with the model device sending the corrupted packet. Oracle: ProtocolError, never a frame. Complete for the enumerated single faults of the listed packets; search beyond.",
+    "Authentic packets come from the independent encoder (anchored to a captured packet). Faults are not re-signed; signed garbage is C09.",
+    "DESIGN.md 3/C03")
+CHECKS["C04"] = (
+    "exploration", "exhaustive cut-set enumeration (<=3 cuts) on short streams + Hypothesis random segmentations; virtual-time latency oracle",
+    "Streams of 1..4 V3 packets with marker-bearing payloads and marker-free garbage prefixes are fed to the protocol in every segmentation with up to three cuts (exhaustive for the enumerated short streams), byte-by-byte, and in random segmentations of streams up to 64 KiB; after each chunk exactly the packets completed by that chunk must come out, in order, byte-identical. Level 2 checks through LAN.send that the call returns at the virtual instant the last byte of the first packet arrives and that nothing is lost or duplicated across two sends.",
+    "Schedules are (time, chunk) delivery scripts on a single-threaded virtual-time loop; kernel TCP behaviour is not modelled.",
+    "DESIGN.md 3/C04")
